@@ -124,10 +124,32 @@ def lay_out(order, state, err, fields):
     return st + er + fields        # "mid"
 
 
+HTTP_4XX = [400, 405, 429, 470]
+HTTP_REASON = {200: "OK", 400: "Bad Request", 405: "Method Not Allowed", 429: "Too Many Requests",
+               470: "Connection Authorization Required", 500: "Internal Server Error"}
+_rot = [0]
+
+
+def statuses_for(tier):
+    """HTTP statuses the IP accessory may send the reply under: 200 plus one rotating 4xx (quick) / all (thorough)"""
+    if tier == "quick":
+        _rot[0] += 1
+        return [200, HTTP_4XX[_rot[0] % 4]]
+    return [200] + HTTP_4XX + [500]
+
+
+def with_status(c, status):
+    d = dict(c)
+    d["status"] = status
+    d["meta"] = dict(c["meta"], status=str(status))
+    return d
+
+
 def mk_cell(stream, step, transport, items, oracles, **meta):
     o = default_oracles()
     o.update(oracles)
-    return dict(stream=stream, step=step, t=transport, items=[(int(k), bytes(v)) for k, v in items], o=o, meta=meta)
+    meta.setdefault("status", "200" if transport == "F" or step in ("ipadd", "iprem") else "-")
+    return dict(stream=stream, step=step, t=transport, items=[(int(k), bytes(v)) for k, v in items], o=o, meta=meta, status=200)
 
 
 def gen_main(tier, x_pub):
@@ -140,7 +162,11 @@ def gen_main(tier, x_pub):
                     for order in (["last"] if err is None else ["last", "first", "mid"]):
                         items = lay_out(order, state, err, fitems)
                         for t in "FU":
-                            cells.append(mk_cell("main", step, t, items, fo, fields=fname, order=order))
+                            c = mk_cell("main", step, t, items, fo, fields=fname, order=order)
+                            if t == "F":
+                                cells.extend(with_status(c, st) for st in statuses_for(tier))
+                            else:
+                                cells.append(c)
     return cells
 
 
@@ -237,7 +263,8 @@ def gen_mutated(cells, r, n):
         if any(k in (12, 13) for k, _ in (ref_decode(bytes(bs)) or [])):
             continue                                   # BLE fragment types: C15's reassembly, not this property
         d = dict(c)
-        d = dict(stream="mutated", step=c["step"], t=c["t"], items=None, raw=bytes(bs), o=c["o"], meta=dict(fields=c["meta"]["fields"], order="mutated"))
+        d = dict(stream="mutated", step=c["step"], t=c["t"], items=None, raw=bytes(bs), o=c["o"], status=c.get("status", 200),
+                 meta=dict(fields=c["meta"]["fields"], order="mutated", status=c["meta"].get("status", "-")))
         out.append(d)
     return out
 
@@ -312,15 +339,44 @@ class Env:
         self.fakes = dict(SrpClient=FakeSrp, ChaCha20Poly1305Decryptor=FakeDec, ed25519=FakeEd)
         self.saved = {}
         self.script = []
-        self.conn = object.__new__(HomeKitConnection)
+        self.conn = None
+        self.final_status = 200
+        self.ip = None
+        self.disc = None
 
-        class Resp:
-            def __init__(self, body):
-                self.body = body
+        class MemTransport:
+            """in-memory asyncio transport of the scripted IP accessory: every request written is answered at once
+            with the next scripted reply as a complete HTTP/1.1 response (status 200 for prelude replies, the
+            cell's status for the reply under test), parsed by the real InsecureHomeKitProtocol / HttpResponse"""
 
-        async def post(target, body, content_type=None):
-            return Resp(env.next_reply())
-        self.conn.post = post
+            def __init__(self, conn):
+                self.conn = conn
+                self.closed = 0
+                self.requests = []
+
+            def writelines(self, payload):
+                self.requests.append(b"".join(payload))
+                body = env.next_reply()                 # ScriptDone propagates through _send_lines
+                status = 200 if env.fed <= env.n_pre else env.final_status
+                head = (f"HTTP/1.1 {status} {HTTP_REASON.get(status, 'X')}\r\nContent-Type: application/pairing+tlv8\r\n"
+                        f"Content-Length: {len(body)}\r\n\r\n").encode()
+                self.conn.protocol.data_received(head + bytes(body))
+
+            def write(self, data):
+                self.writelines([data])
+
+            def write_eof(self):
+                pass
+
+            def close(self):
+                self.closed += 1
+
+            def is_closing(self):
+                return False                            # post_tlv closes after a 4xx; the script goes on regardless
+
+            def set_protocol(self, p):
+                pass
+        self.MemTransport = MemTransport
 
         class FakeClient:
             address = "00:00:00:00:00:00"
@@ -339,8 +395,34 @@ class Env:
     class ScriptDone(Exception):
         pass
 
-    def begin(self, prelude, final, prelude_ora, cell_ora):
+    def wire(self, conn):
+        """give a HomeKitConnection the in-memory transport and the real insecure protocol (needs a running loop)"""
+        from aiohomekit.controller.ip.connection import InsecureHomeKitProtocol
+        conn.transport = self.MemTransport(conn)
+        conn.protocol = InsecureHomeKitProtocol(conn)
+        conn.protocol.connection_made(conn.transport)
+        conn.host_header = "Host: 127.0.0.1"
+        conn.connected_host = "127.0.0.1"
+        return conn
+
+    def rewire(self):
+        """a fresh real HomeKitConnection per cell (a changed post_tlv may drop the transport)"""
+        async def noop(*a, **k):
+            return None
+        conn = self.wire(self.HKC(None, ["127.0.0.1"], 1))
+        conn.ensure_connection = noop
+        conn.close = noop
+        self.conn = conn
+        if self.ip is not None:
+            self.ip.connection = conn
+        if self.disc is not None:
+            self.disc.connection = conn
+        return conn
+
+    def begin(self, prelude, final, prelude_ora, cell_ora, status=200):
         """script the accessory: good prelude replies (answered with all-valid oracles), then the reply under test"""
+        self.final_status = status
+        self.rewire()
         self.script = list(prelude) + ([final] if final is not None else [])
         self.n_pre = len(prelude)
         self.fed = 0
@@ -414,7 +496,7 @@ class Env:
         reply = cell_reply(c) if t != "L" else None
         self.sig_key = "m6sig" if step == "S6" else "v2sig"
         sm, prelude = self.make_sm(step, o)
-        self.begin(prelude, reply, self.preludes(step, o), o)
+        self.begin(prelude, reply, self.preludes(step, o), o, c.get("status", 200))
         n_pre = self.n_pre
         try:
             if t == "U":
@@ -504,11 +586,7 @@ class Env:
         disc = object.__new__(idisc.IpDiscovery)
         disc.controller = types.SimpleNamespace(pairings={})
         disc.description = types.SimpleNamespace(feature_flags=0, address="127.0.0.1", addresses=["127.0.0.1"], port=1, name="x", id="aa")
-        conn = object.__new__(ic.HomeKitConnection)
-        conn.post = self.conn.post
-        conn.ensure_connection = noop
-        conn.close = noop
-        disc.connection = conn
+        disc.connection = None                       # set by rewire() for every cell
         self.disc = disc
         self.FakeTransport = FakeTransport
 
@@ -523,7 +601,7 @@ class Env:
         reply = cell_reply(c)
         self.sig_key = "m6sig" if step == "S6" else "v2sig"
         prelude = {"S2": [], "S4": [GOOD_M2], "S6": [GOOD_M2, GOOD_M4], "V2": [], "V4": [self.good_m2]}[step]
-        self.begin(prelude, reply, self.preludes(step, o), o)
+        self.begin(prelude, reply, self.preludes(step, o), o, c.get("status", 200))
         n_pre = self.n_pre
         try:
             if level == "ip" and step in ("S2", "S4", "S6"):
@@ -536,12 +614,11 @@ class Env:
                 sc = object.__new__(self.ic.SecureHomeKitConnection)
                 sc.owner = None
                 sc.pairing_data = self.pairing_data(o["pid"])
-                sc.post = self.conn.post
-                sc.transport = self.FakeTransport()
+                sc._concurrency_limit = asyncio.Semaphore(1)
                 sc._pair_verify_failed_hosts = set()
                 sc.hosts = ["127.0.0.1"]
                 sc.port = 1
-                sc.connected_host = "127.0.0.1"
+                self.wire(sc)
                 await sc._connect_once()
                 return "ok keys" if sc.is_secure else "ok not-secure"
             co = self.cc.CoAPHomeKitConnection(None, "::1", 5683)
@@ -568,7 +645,7 @@ class Env:
         async def noop(*a, **k):
             return None
         p._ensure_connected = noop
-        p.connection = self.conn
+        p.connection = None                          # set by rewire() for every cell
         p._pairing_data = {"iOSPairingId": "ctl-1"}
         p.shutdown = noop
         return p
@@ -614,8 +691,8 @@ class Env:
         b._async_request = req
         return b
 
-    async def run_mgmt(self, op, reply):
-        self.begin([], reply, default_oracles(), default_oracles())
+    async def run_mgmt(self, op, reply, status=200):
+        self.begin([], reply, default_oracles(), default_oracles(), status)
         try:
             if op == "ipadd":
                 r = await self.ip.add_pairing("ctl-2", "00" * 32, "User")
@@ -692,6 +769,11 @@ def judge(step_or_op, items, transport, impl, mgmt=False):
     return None
 
 
+def http_class(cell):
+    st = cell["meta"].get("status", "-")
+    return st if st in ("-", "200") else st[0] + "xx"
+
+
 def state_kind(items, exp):
     st = [v for k, v in items if k == T_STATE]
     if not st:
@@ -743,6 +825,8 @@ def real_verify_cells():
         for state in (None, b"\x04", b"\x02"):
             for t in "FU":
                 cells.append(dict(step="V4", tamper=None, err=err, state=state, order="last", t=t, m4=True))
+    # the IP accessory may send any of these with a 4xx HTTP status (470 is what HAP uses for authentication trouble)
+    cells += [dict(c, status=st) for c in cells if c["t"] == "F" for st in (470, 429)]
     return cells, accessory_m2, acc_ltpk
 
 
@@ -768,8 +852,7 @@ async def run_real_verify(env, drv, cov, add_violation, record):
             script = [ref_encode([(T_STATE, b"\x02")] + m2_fields), ref_encode(items)]
         fed = 0
         try:
-            env.begin([], None, o, o)
-            env.script = list(script)
+            env.begin(script[:-1], script[-1], o, o, c.get("status", 200))
             if c["t"] == "U":
                 # the generator was already advanced once: wrap it so the BLE driver's send(None) gets the first request
                 def resumed(sm=sm, first=(request, expected)):
@@ -795,6 +878,8 @@ async def run_real_verify(env, drv, cov, add_violation, record):
         except Exception as e:  # noqa
             out = env.classify(e)
         cell = mk_cell("realcrypto", c["step"], c["t"], items, o, fields=f"tamper={c['tamper']}", order=c["order"])
+        if c["t"] == "F":
+            cell = with_status(cell, c.get("status", 200))
         lines.append(model_line(cell))
         impls.append(out)
         metas.append(cell)
@@ -888,7 +973,7 @@ def run(ctx):
     env.ip = env.make_ip_pairing()
     fine = collections.OrderedDict()      # fine key -> list of violating cells
     mismatches = []
-    domain = collections.defaultdict(lambda: (set(), set()))   # coarse key -> (transports, orders) of all judged cells
+    domain = collections.defaultdict(lambda: (set(), set(), set()))   # coarse key -> (transports, orders, http statuses) of all judged cells
 
     def coarse_of(cell, exp, cat):
         has_err = any(k == T_ERROR for k, _ in cell["items"])
@@ -914,6 +999,7 @@ def run(ctx):
                     d = domain[coarse_of(jc, exp, cat)]
                     d[0].add(cell["t"])
                     d[1].add(cell["meta"]["order"])
+                    d[2].add(http_class(cell))
             if verdict is not None:
                 ck = coarse_of(jc, exp, verdict[0]) + (verdict[1],)
                 fine.setdefault(ck, []).append((cell, impl, model, verdict))
@@ -925,7 +1011,8 @@ def run(ctx):
         if cov.evaluations % 4099 == 0:
             sample = dict(stream=cell["stream"], step=cell["step"], transport=cell["t"], reply=hx(reply)[:96],
                           fields=cell["meta"]["fields"], impl=impl[:60], model=model[:60])
-        cov.case(f"{cell['stream']}|{cell['step']}|{cell['t']}|{hx(reply)}|{o_tokens(cell['o'])}", nontrivial, sample=sample,
+        cov.case(f"{cell['stream']}|{cell['step']}|{cell['t']}|{cell['meta'].get('status', '-')}|{hx(reply)}|{o_tokens(cell['o'])}", nontrivial, sample=sample,
+                 http_status=cell["meta"].get("status", "-"),
                  stream=cell["stream"], step=cell["step"], transport=cell["t"], result=canon(impl).split(" ")[0] + " " + (impl.split(" ")[1] if impl.startswith("err") else ""),
                  error_code=("n/a" if items is None else err_name(next((v for k, v in items if k == T_ERROR), None))),
                  state=("n/a" if items is None else state_kind(items, 2 if mg else EXP_STATE[cell["step"]])),
@@ -969,7 +1056,11 @@ def run(ctx):
                         for level in ("ip", "coap"):
                             cc_ = mk_cell("call", step, "F", items, fo, fields=fname, order=order)
                             cc_["level"] = level
-                            call_cells.append(cc_)
+                            if level == "ip":
+                                call_cells.extend(with_status(cc_, st) for st in statuses_for(tier))
+                            else:
+                                cc_["meta"]["status"] = "-"
+                                call_cells.append(cc_)
     call_models = drv.batch([model_line(c) for c in call_cells])
 
     async def all_calls():
@@ -1012,7 +1103,11 @@ def run(ctx):
                                 items = [(T_RETRY, b"\x01")] + items
                             elif extra == "trailing":
                                 items = items + [(T_RETRY, b"\x01")]
-                            mg_cells.append(mk_cell("mgmt", op, "-", items, {}, fields=fname + ("" if not extra else "+x-" + extra), order=order))
+                            mc = mk_cell("mgmt", op, "-", items, {}, fields=fname + ("" if not extra else "+x-" + extra), order=order)
+                            if op.startswith("ip"):
+                                mg_cells.extend(with_status(mc, st) for st in statuses_for(tier))
+                            else:
+                                mg_cells.append(mc)
     wire = []
     for c in mg_cells:
         inner = ref_encode(c["items"])
@@ -1031,7 +1126,7 @@ def run(ctx):
                                  ("two-values", ref_encode([(1, inner), (9, b"\x01"), (1, ref_encode([(T_STATE, b"\x02")]))])),
                                  ("inner-truncated", ref_encode([(1, inner[:-1])])), ("outer-truncated", ref_encode([(1, inner)])[:-1])):
                 odd.append(dict(stream="mgmt", step=op, t="-", items=None, raw=outer, o=default_oracles(),
-                                meta=dict(fields=shape, order="mutated")))
+                                meta=dict(fields=shape, order="mutated", status="-")))
     for _ in range(400 if tier == "quick" else 6000):
         c = r.choice(mg_cells)
         bs = bytearray(c["raw_reply"])
@@ -1042,8 +1137,8 @@ def run(ctx):
         else:
             j = r.randrange(len(bs))
             bs[j] ^= 1 << r.randrange(8)
-        odd.append(dict(stream="mgmt", step=c["step"], t="-", items=None, raw=bytes(bs), o=default_oracles(),
-                        meta=dict(fields="mutated", order="mutated")))
+        odd.append(dict(stream="mgmt", step=c["step"], t="-", items=None, raw=bytes(bs), o=default_oracles(), status=c.get("status", 200),
+                        meta=dict(fields="mutated", order="mutated", status=c["meta"]["status"])))
     for c in mg_cells:
         c["raw"] = c["raw_reply"]
     all_mg = mg_cells + odd
@@ -1051,7 +1146,7 @@ def run(ctx):
 
     async def all_mgmt():
         env.ble = env.make_ble_pairing()
-        return [await env.run_mgmt(c["step"], c["raw"]) for c in all_mg]
+        return [await env.run_mgmt(c["step"], c["raw"], c.get("status", 200)) for c in all_mg]
     impls = asyncio.run(all_mgmt())
     for c, i, m in zip(all_mg, impls, models):
         record(c, i, m)
@@ -1096,7 +1191,8 @@ def run(ctx):
         kind, step, sk, ek, cat, symptom = ck
         ts = {c["t"] for c, _, _, _ in lst}
         orders = {c["meta"]["order"] for c, _, _, _ in lst}
-        dom_t, dom_o = domain[ck[:5]]
+        dom_t, dom_o, dom_h = domain[ck[:5]]
+        hs = {http_class(c) for c, _, _, _ in lst}
         key = f"{step}/{sk}+{ek}/{symptom}"
         if cat != "direct":
             key = f"{step}/{cat}/{symptom}"
@@ -1105,6 +1201,8 @@ def run(ctx):
                 key += "/" + "+".join(sorted(ts)) + "-only"
             if orders != dom_o and len(orders) <= 2:
                 key += "/" + "+".join(sorted(orders))
+            if hs != dom_h:
+                key += "/http-" + "+".join(sorted(hs)) + "-only"
         merged.setdefault(key, []).extend((c, impl, model, verdict, sk, ek) for c, impl, model, verdict in lst)
     for key, lst in merged.items():
         def rank(x):
@@ -1118,13 +1216,15 @@ def run(ctx):
         ts = sorted({x[0]["t"] for x in lst})
         orders = sorted({x[0]["meta"]["order"] for x in lst})
         name = STEP_NAME.get(step, step)
+        http = "" if c["meta"].get("status", "-") == "-" else f", HTTP status {c['meta']['status']}"
         what = (f"{name}: reply {[(k, hx(v)[:16]) for k, v in (c['items'] or [])]} "
-                f"({sk}, {ek}, transport {c['t']}) {verdict[2]}; {len(lst)} cells of this class fail")
+                f"({sk}, {ek}, transport {c['t']}{http}) {verdict[2]}; {len(lst)} cells of this class fail")
         viols.append(violation(key, what, True, stream=c["stream"], step=step, transport=c["t"],
                                reply=hx(cell_reply(c)) if c["t"] != "L" else None,
                                items=[(k, hx(v)) for k, v in (c["items"] or [])], oracles={k: (hx(v) if isinstance(v, bytes) else v) for k, v in c["o"].items()},
                                impl=impl, model=model, expected=verdict[2], failing_cells=len(lst),
-                               transports=ts, layouts=orders[:8]))
+                               transports=ts, layouts=orders[:8], http_status=c["meta"].get("status", "-"),
+                               http_statuses=sorted({x[0]["meta"].get("status", "-") for x in lst})))
     for c, got, want in tbl_bad[:3]:
         viols.append(violation(f"error_handler/code-{c.hex() or 'empty'}", f"error_handler({c.hex()}) gives {got}, documented {want}", True,
                                code=c.hex(), impl=got, expected=want))
